@@ -480,7 +480,8 @@ def mk_timed_goal(ctx, h, k):
 
     def apply(P):
         if v == 0:
-            P.add_timed_goal(GlobalStartTiming(delay), em.FluentExp(h.b))
+            # not the goal already present at t=5: the list of that time point grows
+            P.add_timed_goal(GlobalStartTiming(delay), em.FluentExp(h.p, [em.ObjectExp(h.o2)]))
         elif v == 1:
             P.add_timed_goal(ClosedTimeInterval(GlobalStartTiming(Fraction(1, 16) if h.sym else 0), GlobalStartTiming(delay)), em.FluentExp(h.p, [em.ObjectExp(h.o1)]))
         else:
@@ -825,11 +826,14 @@ def h_both(ctx, cls, feats, n_ops, ops=None, first=None, sym=False, lite=False, 
         ctx.witness("both-accepted" if ra is None else "both-rejected")
 
 
-def h_one(ctx, cls, feats, n_ops, ops=None, first=None, sym=False, lite=False, first_from=None, side=None, pin=None):
-    """the operations are applied to one side only; the other side must not change"""
+def h_one(ctx, cls, feats, n_ops, ops=None, first=None, sym=False, lite=False, first_from=None, side=None, pin=None, probe=None):
+    """the operations are applied to one side only; the other side must not change.  With `probe` (a list of operation kinds) one
+    more operation is then applied to the untouched side and to an independently built twin of the start problem: same acceptance,
+    same result -- this observes the non-public bookkeeping (_fluents_assigned / _fluents_inc_dec) that the edits must not reach."""
     env = ctx.fresh_env(hashcons="syntactic")
     with ctx.untraced():
         h = _start(ctx, env, cls, feats, sym, lite, pin)
+        twin = _start(ctx, env, cls, feats, sym, lite, pin).P if probe else None
     A = h.P
     B = A.clone()
     edited, other = (A, B) if (ctx.choice("edit_clone", 2) if side is None else side) == 0 else (B, A)
@@ -849,6 +853,18 @@ def h_one(ctx, cls, feats, n_ops, ops=None, first=None, sym=False, lite=False, f
             ctx.check(other == snap and snap == other, f"{kind}:indep-{who}-eq",
                       f"operation {k} ({label}) on the other side: the {who} is no longer == to the clone of it taken before")
         ctx.witness("untouched-after-accepted" if r is None else "untouched-after-rejected")
+    if probe:
+        label, apply = OPS[probe[ctx.choice("probe_op", len(probe))]](ctx, h, 9)
+        kind = label.rstrip("0123456789")
+        ro, rt = _run(apply, other), _run(apply, twin)
+        if ro != rt:
+            ctx.fail(f"{kind}:probe-{who}[{who}={ro},twin={rt}]",
+                     f"after edits of the other side only, {label} on the untouched {who}: {ro or 'accepted'}; on an independently built "
+                     f"twin of the start problem: {rt or 'accepted'}")
+        comps = fp_diff(fingerprint(other, cls), fingerprint(twin, cls))
+        if comps:
+            ctx.fail(f"{kind}:probe-{who}-neq[{','.join(comps)}]", f"after {label} the untouched {who} and the twin differ in {comps}")
+        ctx.witness("probe-accepted" if ro is None else "probe-rejected")
 
 
 # ------------------------------------------------------------------------------------------------------
@@ -920,6 +936,10 @@ def shards(tier, seed):
                 out[-1]["kwargs"]["first_from"] = first_ops
         add("ma", [], "both", 3, budget=bud)
         add("ma", [], "one", 3, budget=bud)
+    # (2b) one timed operation on one side, then a probe operation on the untouched side and on an independently built twin
+    for cls, feats in (("problem", FULL), ("contingent", ["tgoal"]), ("hierarchical", ["tgoal"])):
+        add(cls, feats, "one", 1, ops=TIMED, lite=quick, tag="probe", budget=bud)
+        out[-1]["kwargs"]["probe"] = TIMED
     # (3) symbolic timings / values (delay (2k+1)/8 and assigned values are solver variables)
     add("problem", ["tinc", "tassign"], "both", 1, sym=True, ops=TIMED, budget=bud)
     add("problem", [], "both", 2, sym=True, ops=["timed_assign", "timed_incdec"], tag="m", budget=bud)
